@@ -91,3 +91,6 @@ mod bit_util;
 pub(crate) use bit_util::*;
 
 pub mod test_util;
+
+#[cfg(helgoboss_midi_verif)]
+pub mod verif_hooks;
